@@ -133,6 +133,27 @@ func healthyWorld(g *Gen) *c27Scenario {
 		}
 		s.fs = append(s.fs, plEntry{path: "file_extension_handlers.json", content: handlersJSON(m)})
 	}
+	// leftovers of operations killed earlier (such a tree is Healthy, theorem C27_healthy_again): the temporary files of
+	// the two atomic JSON writes, complete or torn, longer than anything the next operation writes
+	if g.Chance(1, 2) {
+		stale := handlersJSON(map[string]string{"xlsx": "excel-spreadsheets-plugin", "xls": "excel-spreadsheets-plugin", "ods": "excel-spreadsheets-plugin",
+			"avro": "avro", "parquet2": "parquet-next", "sqlite": "sqlite", "db": "sqlite"})
+		if g.Bool() {
+			stale = stale[:len(stale)-1-g.Intn(40)]
+		}
+		s.fs = append(s.fs, plEntry{path: "file_extension_handlers.json.tmp", content: stale})
+	}
+	if g.Chance(1, 3) {
+		for _, r := range []string{"my-repo", "r2", "fresh", "third-party"} {
+			if g.Chance(1, 2) {
+				stale := repoEntryJSON("http://plugins.test/a/very/long/path/to/a/repository/that/was/never/registered/" + hx(r) + ".json")
+				if g.Bool() {
+					stale = stale[:len(stale)-1-g.Intn(30)]
+				}
+				s.fs = append(s.fs, plEntry{path: "repositories-" + r + ".tmp", content: stale})
+			}
+		}
+	}
 	if g.Chance(1, 3) {
 		s.fs = append(s.fs, plEntry{path: "repositories", dir: true})
 		for _, r := range []string{"my-repo", "r2"} {
